@@ -480,17 +480,13 @@ Definition htfc_extract (d : htfc) (id : N) : option (option str) :=
 (* ---------------------------------------------------------------------- *)
 (* locateBucket / locate                                                   *)
 (* ---------------------------------------------------------------------- *)
-(* uchar *StatCoder::encodeString(str, strLen, &encLen, &offset): new uchar[4 * strLen]; the byte being
-   filled (index = number of completed bytes) must lie inside that allocation *)
+(* uchar *StatCoder::encodeString(str, strLen, &encLen, &offset): new uchar[4 * strLen + 1]; the byte being
+   filled (index = number of completed bytes; encodeSymbol clears it after every completed byte) must lie
+   inside that allocation *)
 Definition encode_string (d : htfc) (s : list N) : option (list N * N) :=
-  match s with
-  | [] => Some ([], 0)   (* new uchar[0]; encoded[0] = 0: one byte written into a zero-byte allocation; every
-                            allocator hands out at least one byte for it (ASan included), see NOTES *)
-  | _ =>
-      match pack_symbols (h_cw d) s ([], 0, 0) with
-      | None => None
-      | Some st => if lenN (fst (fst st)) <? 4 * lenN s then Some (final_bytes st, snd st) else None
-      end
+  match pack_symbols (h_cw d) s ([], 0, 0) with
+  | None => None
+  | Some st => if lenN (fst (fst st)) <? 4 * lenN s + 1 then Some (final_bytes st, snd st) else None
   end.
 
 (* memcmp(a, b, |b|) on the bytes of [a] that exist: the sign of the first differing byte; [None] when [a]
